@@ -74,7 +74,7 @@ theorem fromQuery_of_carried {q : List (String × QV)} {md : List (Nat × Nat)} 
     simpa [assemble] using h
   · simp at h
 
-/-- the code accepts options the strict reading calls undecodable (K09) -/
+/-- the code accepts options the strict reading calls undecodable (K21) -/
 def lenient (r : Req) : Bool := (carried r.query r.md).isNone && (fromQuery r.query r.md).isSome
 
 theorem fromQuery_none_of_carried_none {r : Req} (hl : lenient r = false)
@@ -187,7 +187,7 @@ theorem parseCid_cases (r : Req) (pat : List PSeg) :
     (cidOpt r pat = none ∧ parseCid r pat = none) ∨
     (∃ c, cidOpt r pat = some c ∧ fromQuery r.query r.md = none ∧ parseCid r pat = none) ∨
     (∃ c o, cidOpt r pat = some c ∧ fromQuery r.query r.md = some o ∧
-      parseCid r pat = some { pinWithOpts c o with depth := -1 }) := by
+      parseCid r pat = some (pinWithOpts c o)) := by
   unfold parseCid cidOpt
   cases hc : (varSeg "hash" pat r.segs).bind (·.cid) with
   | none => simp
@@ -310,35 +310,28 @@ theorem ok_add (e : Expect) (r : Req) (hs : Shape.add = e.shape) :
   unfold verdict runHandler; rw [← hs]; exact conforms_malformed_refuse
 
 /-- the CID pin route: needs the options the strict reading accepts to be the ones the code reads
-    (`lenient = false`, K09); it conforms unless the carried mode is `direct`, which does not survive (K07) -/
+    (`lenient = false`, K21) -/
 theorem ok_pin (e : Expect) (r : Req) (hs : Shape.pin "Cluster.Pin" = e.shape)
     (hl : lenient r = false) :
-    conforms (verdict e r) (runHandler .pin r e.pat) = true ∨
-    (S.mode r.query = some .direct ∧ isMalformed (verdict e r) = false) := by
+    conforms (verdict e r) (runHandler .pin r e.pat) = true := by
   unfold verdict runHandler; rw [← hs]
   rcases parseCid_cases r e.pat with ⟨hc, hp⟩ | ⟨c, hc, hf, hp⟩ | ⟨c, o, hc, hf, hp⟩
-  · simp only [cidOpt] at hc; simp only [hc, hp]; exact Or.inl conforms_malformed_refuse
+  · simp only [cidOpt] at hc; simp only [hc, hp]; exact conforms_malformed_refuse
   · simp only [cidOpt] at hc
     have hcar : carried r.query r.md = none := by
       cases hcar : carried r.query r.md with
       | none => rfl
       | some o => rw [fromQuery_of_carried hcar] at hf; simp at hf
-    simp only [hc, hp, hcar]; exact Or.inl conforms_malformed_refuse
+    simp only [hc, hp, hcar]; exact conforms_malformed_refuse
   · simp only [cidOpt] at hc
     cases hcar : carried r.query r.md with
     | none => rw [fromQuery_none_of_carried_none hl hcar] at hf; simp at hf
     | some o' =>
       have ho : o' = o := by rw [fromQuery_of_carried hcar] at hf; simpa using hf
       subst ho
-      have hmode := carried_mode hcar
       simp only [hc, hp]
-      cases hmo : o'.mode with
-      | recursive =>
-        exact Or.inl (conforms_decide'_respond (by simp [Want.ok, pinArg, pinWithOpts, depthToMode, hmo]))
-      | direct =>
-        right
-        refine ⟨by rw [hmode, hmo], ?_⟩
-        unfold decide'; split <;> rfl
+      refine conforms_decide'_respond ?_
+      cases hmo : o'.mode <;> simp [Want.ok, pinArg, pinWithOpts, depthToMode, modeToDepth, hmo]
 
 theorem ok_pinPath (e : Expect) (r : Req) (hs : Shape.pinPath "Cluster.PinPath" = e.shape)
     (hl : lenient r = false) :
@@ -382,45 +375,33 @@ theorem wellShaped_handler (h : Handler) (r : Req) (pat : List PSeg) : wellShape
                        | (split <;> first | exact wellShaped_call _ _ _ | exact w400))
 
 /-- every handler in the table, run on a request that reached it, conforms to the expectation of the
-    shape it implements (K09 excluded by hypothesis) — except the pin handler when the carried mode is
-    `direct` (K07) -/
-theorem handler_ok' (h : Handler) (e : Expect) (r : Req) (hs : shapeOf h = some e.shape)
-    (hl : lenient r = false) :
-    conforms (verdict e r) (runHandler h r e.pat) = true ∨
-    (h = .pin ∧ S.mode r.query = some .direct ∧ isMalformed (verdict e r) = false) := by
-  cases h <;> simp only [shapeOf, Option.some.injEq] at hs
-  case id => exact Or.inl (ok_unit e r _ hs)
-  case version => exact Or.inl (ok_unit e r _ hs)
-  case peerList => exact Or.inl (ok_unit e r _ hs)
-  case graph => exact Or.inl (ok_unit e r _ hs)
-  case alerts => exact Or.inl (ok_unit e r _ hs)
-  case metricNames => exact Or.inl (ok_unit e r _ hs)
-  case peerAdd => exact Or.inl (ok_pidBody e r hs)
-  case peerRemove => exact Or.inl (ok_pidVar e r hs)
-  case add => exact Or.inl (ok_add e r hs)
-  case allocations => exact Or.inl (ok_typeFilter e r hs)
-  case allocation => exact Or.inl (ok_cidArg e r _ _ _ _ _ hs)
-  case statusAll => exact Or.inl (ok_statusFilter e r hs)
-  case recover => exact Or.inl (ok_localCid e r _ _ hs)
-  case recoverAll => exact Or.inl (ok_localUnit e r _ _ hs)
-  case status => exact Or.inl (ok_localCid e r _ _ hs)
-  case pin =>
-    rcases ok_pin e r hs hl with h | ⟨h1, h2⟩
-    · exact Or.inl h
-    · exact Or.inr ⟨rfl, h1, h2⟩
-  case pinPath => exact Or.inl (ok_pinPath e r hs hl)
-  case unpin => exact Or.inl (ok_unpin e r _ _ _ _ _ hs)
-  case unpinPath => exact Or.inl (ok_unpinPath e r hs)
-  case repoGC => exact Or.inl (ok_localUnit e r _ _ hs)
-  case metrics => exact Or.inl (ok_nameVar e r hs)
-  case notFound => simp at hs
-
+    shape it implements (K21 excluded by hypothesis) -/
 theorem handler_ok (h : Handler) (e : Expect) (r : Req) (hs : shapeOf h = some e.shape)
-    (hl : lenient r = false) (h7 : h = .pin → S.mode r.query ≠ some .direct) :
+    (hl : lenient r = false) :
     conforms (verdict e r) (runHandler h r e.pat) = true := by
-  rcases handler_ok' h e r hs hl with hc | ⟨hp, hm, _⟩
-  · exact hc
-  · exact absurd hm (h7 hp)
+  cases h <;> simp only [shapeOf, Option.some.injEq] at hs
+  case id => exact ok_unit e r _ hs
+  case version => exact ok_unit e r _ hs
+  case peerList => exact ok_unit e r _ hs
+  case graph => exact ok_unit e r _ hs
+  case alerts => exact ok_unit e r _ hs
+  case metricNames => exact ok_unit e r _ hs
+  case peerAdd => exact ok_pidBody e r hs
+  case peerRemove => exact ok_pidVar e r hs
+  case add => exact ok_add e r hs
+  case allocations => exact ok_typeFilter e r hs
+  case allocation => exact ok_cidArg e r _ _ _ _ _ hs
+  case statusAll => exact ok_statusFilter e r hs
+  case recover => exact ok_localCid e r _ _ hs
+  case recoverAll => exact ok_localUnit e r _ _ hs
+  case status => exact ok_localCid e r _ _ hs
+  case pin => exact ok_pin e r hs hl
+  case pinPath => exact ok_pinPath e r hs hl
+  case unpin => exact ok_unpin e r _ _ _ _ _ hs
+  case unpinPath => exact ok_unpinPath e r hs
+  case repoGC => exact ok_localUnit e r _ _ hs
+  case metrics => exact ok_nameVar e r hs
+  case notFound => simp at hs
 
 /-! ### the table against the expectations -/
 
@@ -767,7 +748,7 @@ theorem client_allocation (cfg : CliCfg) (s : Seg) (hs : segOK s) (c : Nat) (hc 
 theorem client_unpin (cfg : CliCfg) (s : Seg) (hs : segOK s) (c : Nat) (hc : s.cid = some c) :
     CliHolds cfg (.unpin s) := by
   obtain ⟨h1, h2, h3, h4⟩ := hs
-  refine cli_ok_of_respond ⟨"Cluster.Unpin", pinArg { pinWithOpts c (normOpts (pinCid 0).opts) with depth := -1 }⟩ 200 1 500 404
+  refine cli_ok_of_respond ⟨"Cluster.Unpin", pinArg (pinWithOpts c (normOpts (pinCid 0).opts))⟩ 200 1 500 404
     (w := ⟨["Cluster.Unpin"], .cidOnly c⟩)
     (by simp [callWant, hc]) rfl (by decide) ?_ (by simp [Want.ok, pinArg, pinWithOpts]) (by decide) rfl
   route_eval
@@ -799,11 +780,12 @@ macro_rules
         varSeg, restSegs, parseCid, parsePinPath, Option.bind, query_roundtrip, *])
 
 theorem client_pin (cfg : CliCfg) (s : Seg) (o : Opts) (hs : segOK s) (c : Nat) (hc : s.cid = some c)
-    (hm : o.mode = .recursive) (ho : o.origins = []) : CliHolds cfg (.pin s o) := by
+    (ho : o.origins = []) : CliHolds cfg (.pin s o) := by
   obtain ⟨h1, h2, h3, h4⟩ := hs
-  refine cli_ok_of_respond ⟨"Cluster.Pin", pinArg { pinWithOpts c (normOpts o) with depth := -1 }⟩ 200 1 500 500
+  refine cli_ok_of_respond ⟨"Cluster.Pin", pinArg (pinWithOpts c (normOpts o))⟩ 200 1 500 500
     (w := ⟨["Cluster.Pin"], .pin c (normOpts o)⟩)
-    (by simp [callWant, hc]) rfl (by decide) ?_ (by simp [Want.ok, pinArg, pinWithOpts, depthToMode, normOpts, hm]) ok3
+    (by simp [callWant, hc]) rfl (by decide) ?_
+    (by cases hmo : o.mode <;> simp [Want.ok, pinArg, pinWithOpts, depthToMode, modeToDepth, normOpts, hmo]) ok3
     (by simp [answerHasOrigins, ho])
   route_eval_q
 
